@@ -81,7 +81,8 @@ var rangeVals = []string{"a", "b", "c", "d", "e", "ab", "b.c", "c", "x"}
 // values of the table's own range key: the empty value is rejected there (index key attributes keep
 // the pinned behaviour of the library and stay non-empty in generated items)
 var rangeValsPrimary = []string{"a", "b", "c", "d", "e", "ab", "b.c", "c", "x", ""}
-var rangeValsNum = []string{"1", "2", "3", "10", "9", "5", "7"}
+// number key values; 10 in three spellings (one number, one key)
+var rangeValsNum = []string{"1", "2", "3", "10", "9", "5", "7", "10.0", "010"}
 
 // distinct numbers that a binary64 (or a 17-digit rendering) cannot tell apart: distinct keys
 var rangeValsNumClose = []string{"9007199254740993", "9007199254740992", "0.1234567890123456789", "0.1234567890123456788", "12345678901234567890123456789012345678", "12345678901234567890123456789012345679"}
@@ -206,6 +207,10 @@ func (g *HistGen) genItemFor(t *TableSpec) Item {
 		add("g2", S(pick(g.r, gVals)))
 	}
 	add("v", S(pick(g.r, vVals)))
+	if g.p.CondPct >= 30 && g.r.Chance(15) {
+		// an attribute literally named like a value placeholder of the requests: the request's value is the request's
+		add(pick(g.r, []string{":v0", ":v1", ":x"}), S(pick(g.r, vVals)))
+	}
 	if g.p.DotKeys && g.r.Chance(45) {
 		// a map whose members are named like the key attributes (nested names are no key attributes)
 		m := AV{T: "M", M: []KV{{[]byte(t.Hash[0]), S("inner")}, {[]byte("k"), S("1")}}}
@@ -894,7 +899,10 @@ func (g *HistGen) genBatchWrite() {
 	op := &Op{Op: "batchWrite"}
 	nt := 1
 	bad := g.r.Chance(g.p.BadPct)
-	if !bad && len(live) > 1 && g.r.Chance(40) {
+	// a request that is neither or both put and delete is rejected before anything is written, in whatever
+	// order the tables are visited: such a batch may span two tables; a bad key only fails when its turn comes
+	shapeOnly := bad && g.r.Chance(50)
+	if (!bad || shapeOnly) && len(live) > 1 && g.r.Chance(40) {
 		nt = 2
 	}
 	total := 0
@@ -938,8 +946,12 @@ func (g *HistGen) genBatchWrite() {
 			}
 		}
 		total += n
-		if bad {
-			switch g.r.Intn(3) {
+		if bad && (!shapeOnly || ti == nt-1) {
+			k := g.r.Intn(3)
+			if shapeOnly {
+				k = g.r.Intn(2)
+			}
+			switch k {
 			case 0:
 				tr.Reqs = append(tr.Reqs, WReq{Neither: true})
 			case 1:
@@ -1214,7 +1226,7 @@ func (g *HistGen) Gen() []*Op {
 		case 9:
 			g.ops = append(g.ops, &Op{Op: "describeTable", Table: HexS(g.pickTable().Name)})
 		case 10:
-			g.ops = append(g.ops, &Op{Op: "setFailure", F: pick(g.r, []string{"none", "internal_server", "deprecated", "none"})})
+			g.ops = append(g.ops, &Op{Op: "setFailure", F: pick(g.r, []string{"none", "internal_server", "deprecated", "none"}), Legacy: g.r.Chance(40)})
 		case 11:
 			g.genMgmt()
 		case 12:
@@ -1224,7 +1236,7 @@ func (g *HistGen) Gen() []*Op {
 		}
 	}
 	if p.FinalObserve {
-		g.ops = append(g.ops, &Op{Op: "setFailure", F: "none"})
+		g.ops = append(g.ops, &Op{Op: "setFailure", F: "none", Legacy: g.r.Chance(40)})
 		g.observe()
 	}
 	return g.ops
